@@ -168,6 +168,7 @@ Init == /\ C \in Cfgs
 StepOK(o, lv, r, lv2) ==
     /\ o.n = "alloc" => L1!AllocWhy(lv, C, o.x, r) = "ok" /\ lv2 = L1!AfterAlloc(lv, o.x, r)
     /\ o.n = "free"  => lv2 = L1!AfterFree(lv, o.x)
+    /\ o.n = "freeall" => lv2 = {}
 Refines(o, r, s2) == Assert(StepOK(o, Live(S0), r, Live(s2)), <<"StepRefines", o, r, Live(S0), Live(s2)>>)
 
 Alloc == \E n \in 1 .. MaxN :
@@ -187,7 +188,16 @@ Free == \E a \in FreeTargets \cup {NONE} :
         s2 == DoFree(S0, a) IN
     /\ op' = o /\ pre' = Live(S0) /\ UNCHANGED C
     /\ Install(s2) /\ ret' = NONE /\ pick' = NONE /\ Refines(o, NONE, s2)
-Next == Alloc \/ Free
+\* ---- blocks(): [x for x in self._array if x is not None and x.used] ----
+BlocksSeq(s) == SelectSeq([i \in 1 .. C.size |-> s.arr[i - 1]], LAMBDA b : b # 0 /\ s.heap[b].used)
+\* ---- Server._free_all_buffers: for block in allocator.blocks(): allocator.free(block.address) ----
+RECURSIVE FreeEach(_, _)
+FreeEach(s, bs) == IF bs = <<>> THEN s ELSE FreeEach(DoFree(s, s.heap[bs[1]].start), Tail(bs))
+FreeAll == LET o == [n |-> "freeall", x |-> 0]
+               s2 == FreeEach(S0, BlocksSeq(S0)) IN
+    /\ op' = o /\ pre' = Live(S0) /\ UNCHANGED C
+    /\ Install(s2) /\ ret' = NONE /\ pick' = NONE /\ Refines(o, NONE, s2)
+Next == Alloc \/ Free \/ FreeAll
 Spec == Init /\ [][Next]_vars
 Depth == TLCGet("level") <= MaxDepth
 
@@ -196,6 +206,9 @@ StepRefines ==
     /\ op.n = "alloc" => /\ L1!AllocWhy(pre, C, op.x, ret) = "ok"
                          /\ Live(S0) = L1!AfterAlloc(pre, op.x, ret)
     /\ op.n = "free"  => Live(S0) = L1!AfterFree(pre, op.x)
+\* blocks() reports exactly the live ranges, for every reserved prefix and client offset
+BlocksRefine == L1!BlocksAgree(Live(S0), [k \in 1 .. Len(BlocksSeq(S0)) |->
+                                           <<heap[BlocksSeq(S0)[k]].start, heap[BlocksSeq(S0)[k]].size>>])
 L1Disjoint == L1!Disjoint(Live(S0))
 L1Inside == L1!InsidePartition(Live(S0), C)
 
